@@ -180,6 +180,14 @@ class C05(Prop):
                         es.append({"kind": "gate", "name": g, "qs": [q]})
                 for h in herm:
                     es.append({"kind": "measure", "obs": [h]})
+                # one call with SEVERAL observables (the rank bookkeeping is carried from one observable to the next inside the
+                # kernel): repeated and negated observables, and random pairs / triples -- commuting or not, dependent or not
+                # (among 32 signed strings on 2 qubits one triple in 16 ends with +-(product of the first two))
+                for h in (herm if n == 1 else rng.sample(herm, 6)):
+                    es.append({"kind": "measure", "obs": [h, h]})
+                    es.append({"kind": "measure", "obs": [h, h[:-1] + [(h[-1] + 2) % 4]]})
+                for _ in range(4 if n == 1 else 10):
+                    es.append({"kind": "measure", "obs": [rng.choice(herm) for _ in range(2 + len(es) % 2)]})
                 if r == 0:
                     for h in herm:
                         for b in (0, 1):
